@@ -1,13 +1,335 @@
-/- C11 — first layer; see DESIGN.md §5 -/
-import UBidi.Model.Reorder
-import UBidi.Spec.UAX9
-import UBidi.Spec.Reorder
-namespace UBidi.Props.C11
-open UBidi
+/-
+  C11 — Depth limits: nesting beyond 125 follows the overflow rules.
 
-/-- the analysis of the empty text is empty and does not fail -/
-theorem empty_text (ds : DataSource) (d : Option Nat) :
-    (bidiInfo ds (Text.ofScalars []) d).levels = [] ∧ (bidiInfo ds (Text.ofScalars []) d).err = none := by
-  constructor <;> rfl
+  However deeply embeddings, overrides and isolates are nested, the explicit levels
+  computed by `explicit::compute` never exceed 125 and the resolved levels never exceed
+  126; the `stack.last().unwrap()` and `raise(..).expect` sites are unreachable.
+  The Model's per-character machine `exChar` is shown to be the UAX #9 machine
+  `Spec.xStep` (rules X2–X8 with the overflow counters), a balanced block leaves the
+  machine state unchanged from any reachable state, and an initiator met in overflow
+  changes nothing but a counter.
+
+  Helper lemmas: `UBidi/Lemmas/C11Inv.lean` (invariant, `exChar` case by case),
+  `UBidi/Lemmas/C11Compute.lean` (the fold of `explicitCompute`, I1/I2),
+  `UBidi/Lemmas/C11Sim.lean` (`absStatus`, `Spec.xStep` case by case, simulation),
+  `UBidi/Lemmas/C11Balance.lean` (`Balanced`, `runState`, balance).
+-/
+import UBidi.Lemmas.C11Inv
+import UBidi.Lemmas.C11Compute
+import UBidi.Lemmas.C11Sim
+import UBidi.Lemmas.C11Balance
+import UBidi.Spec.UAX9
+namespace UBidi.Props.C11
+open UBidi UBidi.BidiClass
+
+/-! ## The invariant (`ExInv` is defined in `UBidi/Lemmas/C11Inv.lean`)
+
+`ExInv pl stack oi oe vi` says: `pl ≤ 1`; `StackOK pl stack` — the stack is non-empty, its
+bottom entry is `⟨pl, .neutral⟩`, levels strictly increase towards the top and every
+pushed level is ≤ 125; and `vi = isoCount stack`, the number of `.isolate` entries. -/
+
+/-- what `ExInv` gives, in plain list terms -/
+theorem ExInv_spelled_out {pl : Nat} {stack : List Status} {oi oe vi : Nat}
+    (h : ExInv pl stack oi oe vi) :
+    pl ≤ 1 ∧ stack ≠ [] ∧ stack.getLast? = some ⟨pl, .neutral⟩ ∧
+    (∀ s ∈ stack, pl ≤ s.level ∧ s.level ≤ 125) ∧
+    List.Pairwise (fun a b => b.level < a.level) stack ∧
+    vi = (stack.filter (fun s => s.status = .isolate)).length := by
+  refine ⟨h.pl_le, h.ok.ne_nil, h.ok.bottom, StackOK.levels (by have := h.pl_le; omega) h.ok,
+    h.ok.increasing, ?_⟩
+  rw [h.vi_eq]
+  clear h
+  induction stack with
+  | nil => rfl
+  | cons a r ih =>
+    rw [isoCount_cons, ih]
+    by_cases ha : a.status = .isolate <;> simp [ha] <;> omega
+
+/-- the initial state of `explicit::compute` satisfies the invariant -/
+theorem C11_inv_init (pl : Nat) (h : pl ≤ 1) : ExInv pl [⟨pl, .neutral⟩] 0 0 0 :=
+  ⟨h, rfl, rfl⟩
+
+/-- one character preserves the invariant, does not hit `stack.last().unwrap()` on an empty
+    stack, and is given a level in `[pl, 125]` -/
+theorem C11_inv_step {pl : Nat} {stack : List Status} {oi oe vi : Nat}
+    (h : ExInv pl stack oi oe vi) (oc : BidiClass) :
+    let r := exChar pl stack oi oe vi oc
+    ExInv pl r.stack r.oi r.oe r.vi ∧ r.err = none ∧ pl ≤ r.level ∧ r.level ≤ 125 := by
+  obtain ⟨last, rest, rfl⟩ := h.cons
+  exact inv_step_cons h oc
+
+/-- non-vacuity (test): a reachable state with a valid isolate and a pending embedding overflow -/
+example : ExInv 1 [⟨4, .isolate⟩, ⟨3, .rtl⟩, ⟨1, .neutral⟩] 0 2 1 := by decide
+
+private theorem st0_inv (t : Text) (pl : Nat) (hpl : pl ≤ 1) (ocs : List BidiClass) :
+    StInv pl { stack := [{ level := pl, status := .neutral }],
+               err := if t.len = ocs.length then none else some .explicitLenMismatch } :=
+  ⟨C11_inv_init pl hpl, by intro l hl; simp at hl⟩
+
+/-- explicit levels never exceed 125 (and are never below the paragraph level), for every
+    text — well-formed or not — and every class array -/
+theorem C11_explicit_le_125 (t : Text) (pl : Nat) (hpl : pl ≤ 1) (ocs : List BidiClass) :
+    ∀ l ∈ (explicitCompute t pl ocs).levels, pl ≤ l ∧ l ≤ 125 :=
+  (fold_inv ocs t.segs _ (st0_inv t pl hpl ocs)).lv
+
+/-- the `stack.last().unwrap()` sites, the `assert_eq!` on the lengths and the
+    `original_classes[i]` index never fail -/
+theorem C11_explicit_no_panic (t : Text) (hwf : t.WF) (pl : Nat) (hpl : pl ≤ 1)
+    (ocs : List BidiClass) (hlen : ocs.length = t.len) : (explicitCompute t pl ocs).err = none := by
+  have hb := (segsFrom_bounds t.segs 0 t.len hwf.tiles).2
+  refine fold_err ocs t.segs _ (st0_inv t pl hpl ocs) ?_ (fun s hs => by rw [hlen]; exact (hb s hs).2)
+  simp [hlen]
+
+/-- one level and one processing class per code unit -/
+theorem C11_explicit_length (t : Text) (hwf : t.WF) (pl : Nat) (ocs : List BidiClass) :
+    (explicitCompute t pl ocs).levels.length = t.len ∧ (explicitCompute t pl ocs).pcs.length = t.len := by
+  have := fold_len pl ocs t.segs
+    { stack := [{ level := pl, status := .neutral }],
+      err := if t.len = ocs.length then none else some .explicitLenMismatch } 0 t.len hwf.tiles
+  simpa [explicitCompute] using this
+
+/-- a `&str` of 130 nested RLE (U+202B, three code units each) and the letter `a`, with its
+    per-code-unit classes -/
+def deepText : Text := Text.ofScalars (List.replicate 130 0x202B ++ [0x61])
+def deepClasses : List BidiClass := List.replicate (130 * 3) RLE ++ [L]
+
+/-- non-vacuity: `deepText` meets the hypotheses of the three theorems above … -/
+example : deepText.WF ∧ (0 : Nat) ≤ 1 ∧ deepClasses.length = deepText.len :=
+  ⟨ofScalars_WF _, by decide, by decide +kernel⟩
+/-- … and (test, by evaluation) the bound is attained: the levels of `deepText` go up to 125,
+    the letter sits at level 125, and nothing panics -/
+example : (explicitCompute deepText 0 deepClasses).levels.foldl max 0 = 125 ∧
+    (explicitCompute deepText 0 deepClasses).levels.getLast? = some 125 ∧
+    (explicitCompute deepText 0 deepClasses).err = none := by decide +kernel
+
+private theorem foldl_orErr_none :
+    ∀ (rs : List (Nat × Option Panic)), (∀ r ∈ rs, r.2 = none) →
+      rs.foldl (fun e r => orErr e r.2) none = none
+  | [], _ => rfl
+  | r :: rs, h => by
+    rw [List.foldl_cons, h r (by simp)]
+    exact foldl_orErr_none rs (fun x hx => h x (by simp [hx]))
+
+/-- I1/I2 cannot overflow: resolved levels never exceed 126 and `raise(..).expect` is unreachable -/
+theorem C11_resolved_le_126 (pcs : List BidiClass) (lv : List Nat) (h : ∀ l ∈ lv, l ≤ 125)
+    (hlen : pcs.length = lv.length) :
+    (∀ l ∈ (resolveLevels pcs lv).1, l ≤ 126) ∧ (resolveLevels pcs lv).2 = none ∧
+    (resolveLevels pcs lv).1.length = lv.length := by
+  unfold resolveLevels
+  refine ⟨?_, ?_, ?_⟩
+  · intro l hl
+    simp only [List.mem_map] at hl
+    obtain ⟨r, ⟨⟨a, c⟩, hac, rfl⟩, rfl⟩ := hl
+    exact (resolveLevel_ok a c (h a (List.of_mem_zip hac).1)).1
+  · simp only [hlen, if_true]
+    apply foldl_orErr_none
+    intro r hr
+    simp only [List.mem_map] at hr
+    obtain ⟨⟨a, c⟩, hac, rfl⟩ := hr
+    exact (resolveLevel_ok a c (h a (List.of_mem_zip hac).1)).2
+  · simp [List.length_zip, hlen]
+
+/-- non-vacuity (test): levels 124 / 125 with EN / L are raised to 126, the maximum -/
+example : resolveLevels [EN, L, R, ON] [124, 125, 125, 0] = ([126, 126, 125, 0], none) := by decide
+
+/-! ## StageX: the Model's machine is the UAX #9 machine
+
+`absStatus : Status → Spec.Entry` maps neutral ↦ (none,false), rtl ↦ (some R,false),
+ltr ↦ (some L,false), isolate ↦ (none,true) and keeps the level
+(`UBidi/Lemmas/C11Sim.lean`). -/
+
+/-- Simulation of one character.  From related states `exChar` and `Spec.xStep` (X2–X8) go
+    to related states.  For a character that X9 keeps they report the same level and the
+    same type.  For a character that X9 removes the Model's class is BN; its level is the
+    Spec's, except on a *valid* embedding initiator (RLE/LRE/RLO/LRO pushed with
+    `oi = 0 ∧ oe = 0`), where the Model stores the level it has just pushed while the Spec
+    reports the level before the push (irrelevant: X9 removes the character). -/
+theorem C11_sim_step {pl : Nat} {stack : List Status} {oi oe vi : Nat}
+    (h : ExInv pl stack oi oe vi) (oc : BidiClass) :
+    let r := exChar pl stack oi oe vi oc
+    let s : Spec.XState := ⟨stack.map absStatus, oi, oe, vi⟩
+    let (s', l, ty) := Spec.xStep pl s oc
+    s' = ⟨r.stack.map absStatus, r.oi, r.oe, r.vi⟩ ∧
+    (Spec.isRemoved oc = false → (l = r.level ∧ ty = r.pc)) ∧
+    (Spec.isRemoved oc = true → r.pc = .BN ∧
+      (l = r.level ∨
+       (isEmb oc = true ∧ oi = 0 ∧ oe = 0 ∧ stack.head?.map (·.level) = some l ∧
+        r.stack = ⟨r.level, pushStatus oc⟩ :: stack))) := by
+  obtain ⟨last, rest, rfl⟩ := h.cons
+  have := sim_cons h oc
+  simp only [absState] at this
+  simpa using this
+
+/-- the simulation over a whole class sequence: the levels and types `Spec.xRun` reports
+    agree with the Model's at every position X9 keeps -/
+theorem C11_sim_run {pl : Nat} : ∀ (w : List BidiClass) {stack : List Status} {oi oe vi : Nat},
+    ExInv pl stack oi oe vi →
+    ∀ (k : Nat) (hk : k < w.length), Spec.isRemoved w[k] = false →
+      let s := runState pl (stack, oi, oe, vi) (w.take k)
+      let r := exChar pl s.1 s.2.1 s.2.2.1 s.2.2.2 w[k]
+      (Spec.xRun pl ⟨stack.map absStatus, oi, oe, vi⟩ w)[k]? = some (r.level, r.pc)
+  | [], _, _, _, _, _, _, hk, _ => by simp at hk
+  | c :: w, stack, oi, oe, vi, h, k, hk, hrem => by
+    obtain ⟨last, rest, rfl⟩ := h.cons
+    have hs := sim_cons h c
+    have hi := (inv_step_cons h c).1
+    cases k with
+    | zero =>
+      simp only [List.getElem_cons_zero] at hrem
+      have := hs.2.1 hrem
+      simp only [absState] at this
+      simp [Spec.xRun, runState, ← this.1, ← this.2]
+    | succ k =>
+      simp only [List.getElem_cons_succ] at hrem
+      have ih := C11_sim_run w hi k (by simpa using hk) hrem
+      have h1 := hs.1
+      simp only [absState] at h1
+      simp only [Spec.xRun, List.getElem?_cons_succ, h1, List.take_succ_cons, runState_cons,
+        List.getElem_cons_succ]
+      exact ih
+
+/-- test: on a sample with overrides, isolates, an unmatched PDI and PDF, the Spec's X1–X8 and
+    the Model's machine report the same level and type at every position X9 keeps -/
+example :
+    let w := [RLO, L, LRI, EN, LRE, AL, PDI, PDF, PDI, ON, RLE, FSI, LRO, R, PDF, PDF, WS]
+    ∀ k : Fin 17, Spec.isRemoved (w.getD k ON) = false →
+      let s := runState 1 ([⟨1, .neutral⟩], 0, 0, 0) (w.take k)
+      let r := exChar 1 s.1 s.2.1 s.2.2.1 s.2.2.2 (w.getD k ON)
+      (Spec.explicit 1 w)[k.val]? = some (r.level, r.pc) := by decide +kernel
+
+/-! ## Balance and overflow -/
+
+/-- balance: a properly nested block leaves the explicit machine state exactly where it
+    was, from ANY reachable state (overflow included): processing resumes correctly after
+    the matching terminators -/
+theorem C11_balance {pl : Nat} {stack : List Status} {oi oe vi : Nat}
+    (h : ExInv pl stack oi oe vi) (w : List BidiClass) (hw : Balanced w) :
+    runState pl (stack, oi, oe, vi) w = (stack, oi, oe, vi) :=
+  balance_aux hw _ h
+
+/-- the same, for a machine state given as a whole -/
+theorem C11_balance_state {pl : Nat} (s : MState) (h : MInv pl s) (w : List BidiClass) (hw : Balanced w) :
+    runState pl s w = s :=
+  balance_aux hw s h
+
+/-- an initiator met in overflow (an overflow count is non-zero, or the next level would
+    exceed 125) changes nothing but a counter: stack, valid isolate count unchanged, the
+    character gets the current level, an isolate initiator increments the overflow isolate
+    count, an embedding initiator increments the overflow embedding count iff the overflow
+    isolate count is zero (X2–X5c) -/
+theorem C11_overflow_ignored {pl : Nat} {stack : List Status} {oi oe vi : Nat}
+    (h : ExInv pl stack oi oe vi) (oc : BidiClass)
+    (hoc : isEmb oc = true ∨ oc.isIsolateInitiator = true)
+    (hov : 0 < oi ∨ 0 < oe ∨ ∀ top ∈ stack.head?, 125 < specNext oc top.level) :
+    let r := exChar pl stack oi oe vi oc
+    r.stack = stack ∧ r.vi = vi ∧ r.err = none ∧ stack.head?.map (·.level) = some r.level ∧
+    (oc.isIsolateInitiator = true → r.oi = oi + 1 ∧ r.oe = oe) ∧
+    (isEmb oc = true → r.oi = oi ∧ r.oe = if oi = 0 then oe + 1 else oe) := by
+  obtain ⟨last, rest, rfl⟩ := h.cons
+  have hov' : nextLevel oc last.level = none ∨ oi ≠ 0 ∨ oe ≠ 0 := by
+    rcases hov with h1 | h1 | h1
+    · exact Or.inr (Or.inl (by omega))
+    · exact Or.inr (Or.inr (by omega))
+    · exact Or.inl (nextLevel_none_iff.2 (h1 last (by simp)))
+  have hne : ∀ c, isEmb c = true → c.isIsolateInitiator = true → False := by
+    intro c; cases c <;> simp [isEmb, isIsolateInitiator]
+  rcases hoc with hc | hc
+  · intro r
+    have hr : r = _ := exChar_emb_overflow hc hov'
+    rw [hr]
+    exact ⟨rfl, rfl, rfl, rfl, fun hi => (hne oc hc hi).elim, fun _ => ⟨rfl, rfl⟩⟩
+  · intro r
+    have hr : r = _ := exChar_iso_overflow hc hov'
+    rw [hr]
+    exact ⟨rfl, rfl, rfl, rfl, fun _ => ⟨rfl, rfl⟩, fun he => (hne oc he hc).elim⟩
+
+/-- non-vacuity: a reachable-shaped state at level 124 where LRE would need level 126: the
+    hypotheses of `C11_overflow_ignored` hold with both overflow counts still zero -/
+example : ExInv 1 [⟨124, .isolate⟩, ⟨1, .neutral⟩] 0 0 1 ∧ (isEmb LRE = true ∨ LRE.isIsolateInitiator = true) ∧
+    (0 < 0 ∨ 0 < 0 ∨ ∀ top ∈ ([⟨124, .isolate⟩, ⟨1, .neutral⟩] : List Status).head?, 125 < specNext LRE top.level) :=
+  ⟨by decide, Or.inl rfl, Or.inr (Or.inr (by simp [specNext, isRtlInitiator, Spec.leastEvenAbove]))⟩
+
+/-- conversely, outside overflow an initiator whose level fits is pushed, with exactly the
+    level X2–X5 prescribe (least greater odd / even level) -/
+theorem C11_valid_pushed {pl : Nat} {last : Status} {rest : List Status} {vi : Nat}
+    (oc : BidiClass) (hoc : isEmb oc = true ∨ oc.isIsolateInitiator = true)
+    (hfit : specNext oc last.level ≤ 125) :
+    let r := exChar pl (last :: rest) 0 0 vi oc
+    r.stack = ⟨specNext oc last.level, pushStatus oc⟩ :: last :: rest ∧ r.oi = 0 ∧ r.oe = 0 ∧
+    r.vi = (if oc.isIsolateInitiator then vi + 1 else vi) ∧ r.err = none := by
+  have hnl : nextLevel oc last.level = some (specNext oc last.level) := nextLevel_some_iff.2 ⟨hfit, rfl⟩
+  rcases hoc with hc | hc
+  · have : oc.isIsolateInitiator = false := by cases oc <;> simp [isEmb] at hc <;> rfl
+    intro r
+    have hr : r = _ := exChar_emb_push hc hnl
+    rw [hr, this]
+    exact ⟨rfl, rfl, rfl, rfl, rfl⟩
+  · have hp : pushStatus oc = .isolate := by cases oc <;> simp [isIsolateInitiator] at hc <;> rfl
+    intro r
+    have hr : r = _ := exChar_iso_push hc hnl
+    rw [hr, hc, hp]
+    exact ⟨rfl, rfl, rfl, rfl, rfl⟩
+
+/-! ## Non-vacuity and tests at the depth limit -/
+
+/-- the initial machine state of a left-to-right paragraph -/
+def init0 : MState := ([⟨0, .neutral⟩], 0, 0, 0)
+
+/-- test: 63 nested RLE from paragraph level 0 reach level 125 (1, 3, …, 125) with no overflow … -/
+example : (runState 0 init0 (List.replicate 63 RLE)).1.head? = some ⟨125, .neutral⟩ ∧
+    (runState 0 init0 (List.replicate 63 RLE)).2 = (0, 0, 0) := by decide +kernel
+/-- … and the 64th is ignored: the stack is unchanged and the overflow embedding count becomes 1 -/
+example : stepState 0 (runState 0 init0 (List.replicate 63 RLE)) RLE =
+    ((runState 0 init0 (List.replicate 63 RLE)).1, 0, 1, 0) := by decide +kernel
+
+/-- alternating RLE, LRE, RLE, … (each raises the level by exactly one) -/
+def alternating : Nat → List BidiClass
+  | 0 => []
+  | n + 1 => alternating n ++ [if n % 2 == 0 then RLE else LRE]
+
+/-- test: 125 alternating initiators give a stack of 126 entries with top level 125; the
+    126th initiator, whichever it is, overflows; 200 deep: 75 in overflow -/
+example : (runState 0 init0 (alternating 125)).1.length = 126 ∧
+    (runState 0 init0 (alternating 125)).1.head? = some ⟨125, .neutral⟩ ∧
+    (runState 0 init0 (alternating 125)).2 = (0, 0, 0) ∧
+    runState 0 init0 (alternating 126) = ((runState 0 init0 (alternating 125)).1, 0, 1, 0) ∧
+    runState 0 init0 (alternating 200) = ((runState 0 init0 (alternating 125)).1, 0, 75, 0) := by
+  decide +kernel
+
+/-- test: 62 nested LRI + RLI reach the limit, the next isolate initiator only counts
+    (`oi = 1`), and after its PDI the valid ones are closed one by one -/
+example : runState 0 init0 (List.replicate 62 LRI ++ [RLI, RLI]) =
+      ((runState 0 init0 (List.replicate 62 LRI ++ [RLI])).1, 1, 0, 63) ∧
+    runState 0 init0 (List.replicate 62 LRI ++ [RLI, RLI, PDI]) =
+      runState 0 init0 (List.replicate 62 LRI ++ [RLI]) ∧
+    runState 0 init0 (List.replicate 62 LRI ++ [RLI, RLI] ++ List.replicate 64 PDI) = init0 := by
+  decide +kernel
+
+/-- a balanced block with every kind of initiator -/
+theorem sample_balanced : Balanced [RLI, LRE, L, PDF, LRO, FSI, EN, PDI, PDF, PDI, WS] := by
+  have h1 : Balanced [LRE, L, PDF] := Balanced.emb LRE rfl (Balanced.plain L rfl)
+  have h2 : Balanced [FSI, EN, PDI] := Balanced.iso FSI rfl (Balanced.plain EN rfl)
+  have h3 : Balanced [LRO, FSI, EN, PDI, PDF] := Balanced.emb LRO rfl h2
+  have h4 : Balanced [RLI, LRE, L, PDF, LRO, FSI, EN, PDI, PDF, PDI] :=
+    Balanced.iso RLI rfl (Balanced.append h1 h3)
+  exact Balanced.append h4 (Balanced.plain WS rfl)
+
+/-- the state after 125 alternating initiators and one overflowing LRO: level 125, `oe = 1` -/
+def overflowState : MState := runState 0 init0 (alternating 125 ++ [LRO])
+
+/-- non-vacuity of `C11_balance`: `overflowState` satisfies the invariant (by the step theorem,
+    not by evaluation), it is an overflow state (test, by evaluation), and `sample_balanced`
+    — whose initiators all overflow here — leaves it unchanged -/
+example : MInv 0 overflowState ∧ overflowState.2 = (0, 1, 0) ∧
+    runState 0 overflowState [RLI, LRE, L, PDF, LRO, FSI, EN, PDI, PDF, PDI, WS] = overflowState :=
+  have hi : MInv 0 overflowState := runState_inv _ (C11_inv_init 0 (by decide))
+  ⟨hi, by decide +kernel, C11_balance_state _ hi _ sample_balanced⟩
+
+/-- test: from the state after 123 alternating initiators (level 123) the block's RLI is valid
+    (level 125), its contents overflow, and the state still comes back — here by evaluation -/
+example : let s := runState 0 init0 (alternating 123)
+    (stepState 0 s RLI).1.head? = some ⟨125, .isolate⟩ ∧
+    runState 0 s [RLI, LRE, L, PDF] = ((stepState 0 s RLI).1, 0, 0, 1) ∧
+    runState 0 s [RLI, LRE, L, PDF, LRO, FSI, EN, PDI, PDF, PDI, WS] = s := by decide +kernel
 
 end UBidi.Props.C11
